@@ -210,6 +210,86 @@ type env struct {
 	now           int64
 	behind, ahead int64
 	series        [][]kv
+	// multi-tenant request (see genTenancy): when tenants != nil every metric of the request
+	// carries its own namespace drawn from tenants ("" = the metric carries none), and most
+	// metric names come from the small pool names, so that rows of the same name and of
+	// different namespaces follow each other inside one request.
+	tenants []string
+	names   []string
+}
+
+// tenantPool: namespaces a metric may carry itself. It contains the handler's default and
+// request-level namespaces of nsPool (own namespace == request namespace), a name that needs
+// sanitising, non-ASCII, and pairs where one is a prefix of the other / of a metric name
+// (NameHash is the hash of the plain concatenation namespace+name).
+var tenantPool = []string{"", "", "own", "o|n", "own-namespace", "team-a", "team-b", "default-ns", "ns1", "租户", "a", "cp"}
+
+// noRequestNamespace: proto.Parse / NewBrokerRowProtoConverter replace a metric's namespace by
+// the request's only when the request has one ("replace namespace with enriched":
+// `if len(rc.namespace) > 0`); a protobuf request without a request-level namespace keeps the
+// namespace of every metric. Only the protobuf path documents this; flat / influx requests
+// always get the handler's namespace here.
+func genNoRequestNamespace(t *rapid.T, rc *reqCtx, f format) bool {
+	if f != fProto || rapid.IntRange(0, 9).Draw(t, "noRequestNS") < 7 {
+		return false
+	}
+	rc.NS = ""
+	return true
+}
+
+// genTenancy decides per request whether it is a multi-tenant one. certain = the request has no
+// request-level namespace (then own namespaces are the only ones there are: more often).
+func genTenancy(t *rapid.T, e *env, rc *reqCtx, certain bool) bool {
+	e.tenants, e.names = nil, nil
+	p := 8
+	if certain {
+		p = 3
+	}
+	if rapid.IntRange(0, 9).Draw(t, "multiTenant") < p {
+		return false
+	}
+	seen := map[string]bool{}
+	for i, n := 0, rapid.IntRange(2, 4).Draw(t, "nTenants"); i < n; i++ {
+		ns := rapid.SampledFrom(tenantPool).Draw(t, "tenantNS")
+		if !seen[ns] {
+			seen[ns] = true
+			e.tenants = append(e.tenants, ns)
+		}
+	}
+	for i, n := 0, rapid.IntRange(1, 3).Draw(t, "nNames"); i < n; i++ {
+		e.names = append(e.names, genText(t, "batchName", namePool))
+	}
+	return true
+}
+
+// ownNSWithinLimit: for a protobuf request without request-level namespace the handler's check
+// of the namespace length does not apply and the converter has none for a metric's own
+// namespace; whether such a metric is accepted is not part of the property. Not generated
+// (the own namespace is dropped), counted.
+func ownNSWithinLimit(group string, ms []*am, rc *reqCtx, f format) {
+	if f != fProto || rc.NS != "" {
+		return
+	}
+	for _, m := range ms {
+		if lim(rc.Limits.MaxNamespaceLength, len(m.NS)) {
+			m.NS = ""
+			ev.Class(group, "excluded_out_of_scope_proto_own_ns_over_limit", 1)
+		}
+	}
+}
+
+// nsShape describes the accepted rows of one request: >= 2 different stored namespaces, and two
+// rows following each other with the same stored name and different stored namespaces.
+func nsShape(want []accepted) (varied, adjacent bool) {
+	for i := 1; i < len(want); i++ {
+		if want[i].c.NS != want[0].c.NS {
+			varied = true
+		}
+		if want[i].c.Name == want[i-1].c.Name && want[i].c.NS != want[i-1].c.NS {
+			adjacent = true
+		}
+	}
+	return
 }
 
 // genTimestamp returns a timestamp and whether the property says it is outside the window.
@@ -243,8 +323,15 @@ var invalidKinds = []string{"empty-name", "no-field", "empty-tag-key", "empty-ta
 	"comp-decrease", "comp-last-finite", "comp-one-bucket", "comp-neg-bound"}
 
 func genMetric(t *rapid.T, e *env) (*am, bool, string) {
-	m := &am{Name: genText(t, "name", namePool)}
-	if rapid.IntRange(0, 9).Draw(t, "ownNS") == 0 {
+	m := &am{}
+	if len(e.names) > 0 && rapid.IntRange(0, 9).Draw(t, "fromBatchNames") < 8 {
+		m.Name = rapid.SampledFrom(e.names).Draw(t, "batchNameIdx")
+	} else {
+		m.Name = genText(t, "name", namePool)
+	}
+	if e.tenants != nil {
+		m.NS = rapid.SampledFrom(e.tenants).Draw(t, "tenant")
+	} else if rapid.IntRange(0, 9).Draw(t, "ownNS") == 0 {
 		m.NS = rapid.SampledFrom([]string{"own", "o|n", "own-namespace"}).Draw(t, "ns")
 	}
 	var outside bool
